@@ -134,6 +134,9 @@ func (p *Parser) parseGeneric(sb align.SeqBag) (err error) {
 				if err = sb.AddSequence(curname, curseq.String(), ""); err != nil {
 					return
 				}
+			} else if curname != "" {
+				err = errors.New("A Fasta entry has a name but no sequence (" + curname + ")")
+				return
 			}
 		}
 	}
